@@ -19,7 +19,7 @@ From RV Require Import Lang.StmtAst Lang.Transl Lang.Scope Proofs.ScopeP.
 From RV Require Lang.Headers Proofs.HeadersP Lang.FnSelect Proofs.FnSelectP Lang.CAst.
 From RV Require Lang.EmitScope Proofs.EmitScopeP Lang.Globals Proofs.GlobalsP.
 From RV Require Gen.Reserved Lang.Reserved Proofs.ReservedP Lang.ExcDecl Proofs.ExcDeclP.
-From RV Require Lang.PyAst Lang.Infer Lang.InferComp Lang.CompScope Proofs.CompScopeP.
+From RV Require Lang.PyAst Lang.Infer Lang.InferComp Lang.CompScope Proofs.CompScopeP Lang.Decl.
 Import ListNotations.
 Open Scope Z_scope.
 
@@ -718,3 +718,25 @@ Example C06_comprehension_scope_nonvacuous :
   ES.scan [[ES.CUser CS.n_v]] (CS.comp_toks (InferComp.RComp CS.n_v (PyAst.EInt 3) (InferComp.RComp CS.n_v (PyAst.EInt 2) (InferComp.RPlain (PyAst.EName CS.n_v))))) = Some [[ES.CUser CS.n_v]].
 Proof. exact CompScopeP.nested_demo. Qed.
 Print Assumptions C06_comprehension_scope_nonvacuous.
+
+(* the binder that gets NO scope of its own: a function that assigns a name which is also a module-level variable (Python: a local
+   of the function).  label = "ab" ; def twice(): label = 4 ; return label * 2 : the function is emitted with no local at all and
+   returns int, the only declaration of label is the String global - the assignment of an int-labelled value writes to a
+   declaration of another type (F-C06-fn-local-shadows-global; g++: invalid conversion).  Over Lang/Decl.v, the model of
+   _parse_function that unit C02 ties to parser.py *)
+Theorem C06_fn_local_shadows_global_refuted :
+  exists ps d,
+    Decl.run_items None CS.shadow_items = Some ps /\ Decl.selected_functions (Decl.p_fe ps) = [(CS.n_twice, d)] /\
+    Decl.p_globals ps = [(CS.n_label, Infer.CString)] /\ Decl.fd_locals d = [] /\ Decl.fd_params d = [] /\ Decl.fd_ret d = Infer.CInt /\
+    Infer.infer_s [] [] None [] (PyAst.EInt 4) = Some (Infer.TInt, []) /\
+    CS.fn_assign_consistent (Decl.p_globals ps) d CS.n_label Infer.TInt = false.
+Proof. exact CompScopeP.fn_local_shadows_global. Qed.
+Print Assumptions C06_fn_local_shadows_global_refuted.
+
+(* inside the guard (the global and the function's value have one type) the same shape is consistent *)
+Example C06_fn_assigns_global_same_type :
+  exists ps d,
+    Decl.run_items None CS.same_type_items = Some ps /\ Decl.selected_functions (Decl.p_fe ps) = [(CS.n_twice, d)] /\
+    CS.fn_assign_consistent (Decl.p_globals ps) d CS.n_label Infer.TInt = true.
+Proof. exact CompScopeP.fn_assigns_global_same_type. Qed.
+Print Assumptions C06_fn_assigns_global_same_type.
